@@ -1710,8 +1710,8 @@ class WideSuite:
             return [("callst", c)]
         if r < 0.90:
             c = ("bin", rng.choice(["<", ">", "==", "!=", "<=", ">="]), self.int_expr(1), self.int_expr(1))
-            if c[1] == "<" and ends_with_cast(c[2]):
-                c = ("bin", ">", c[3], c[2])      # `len(xs) < n` is emitted `xs.len() as i64 < n` (C02 finding len-lt): avoided here
+            # (`len(xs) < n` was C02's finding len-lt — emitted `xs.len() as i64 < n` — until the fix: commit that groups a left
+            #  operand ending in a cast; it is generated like any other comparison now)
             return [("if", c, [("print", self.int_expr(1))], [("print", self.int_expr(1))] if rng.random() < 0.5 else None)]
         if lists and not self.has_ys:
             n = rng.choice(lists)
